@@ -236,7 +236,10 @@ func (config ConfigDistribution) GetNamedParametersAsStrings(name string) ([]str
 }
 
 func (config ConfigDistribution) GetNamedParameterAsScalar(name string, t ScalarType) (Scalar, bool) {
-  if v, ok := config.getFloat(config.Parameters); !ok {
+  if p, ok := config.GetNamedParameter(name); !ok {
+    return nil, false
+  } else
+  if v, ok := config.getFloat(p); !ok {
     return nil, false
   } else {
     return NewScalar(t, v), true
